@@ -142,3 +142,375 @@ Proof.
   cbn in E. inversion E as [E'].
   rewrite (wf_ids _ _ _ W i a Ea), (wf_ids _ _ _ W j b Eb) in E'. lia.
 Qed.
+
+(* ------------------------------------------------------------------------------------------ *)
+(* preservation, one space at a time *)
+
+Lemma nthN_snoc_l {A} (l : list A) a k x : nthN l k = Some x -> nthN (l ++ [a]) k = Some x.
+Proof. unfold nthN. apply nth_error_snoc_l. Qed.
+Lemma nthN_snoc_r {A} (l : list A) a : nthN (l ++ [a]) (lenN l) = Some a.
+Proof. unfold nthN, lenN. rewrite Nat2N.id. apply nth_error_snoc_r. Qed.
+Lemma nthN_snoc {A} (l : list A) a k x : nthN (l ++ [a]) k = Some x -> nthN l k = Some x \/ (k = lenN l /\ x = a).
+Proof.
+  unfold nthN, lenN. intros H. apply nth_error_snoc in H as [H|[H1 H2]]; [left; exact H|right].
+  split; [|exact H2]. rewrite <- H1. rewrite N2Nat.id. reflexivity.
+Qed.
+Lemma nthN_lenN_none {A} (l : list A) x : nthN l (lenN l) = Some x -> False.
+Proof. unfold nthN, lenN. rewrite Nat2N.id. apply nth_error_len_none. Qed.
+Lemma nthN_updN_same {A} (f : A -> A) l k : nthN (updN k f l) k = option_map f (nthN l k).
+Proof. unfold nthN, updN. apply nth_error_upd_same. Qed.
+Lemma nthN_updN_other {A} (f : A -> A) l k k' : k <> k' -> nthN (updN k f l) k' = nthN l k'.
+Proof. unfold nthN, updN. intros H. apply nth_error_upd_other. intros E. apply H. apply N2Nat.inj. exact E. Qed.
+
+(* the import list grows by an entry of another kind *)
+Lemma wf_space_imps_snoc code imps x im :
+  wf_space code imps x -> i_sp im <> code -> wf_space code (imps ++ [im]) x.
+Proof.
+  intros W Hne. constructor.
+  - exact (wf_ids _ _ _ W).
+  - exact (wf_cnt _ _ _ W).
+  - exact (wf_orig _ _ _ W).
+  - intros p it k Hp Hk. apply nthN_snoc_l. exact (wf_link _ _ _ W p it k Hp Hk).
+  - exact (wf_inj _ _ _ W).
+  - intros k im0 Hk Hsp Hd. apply nthN_snoc in Hk as [Hk|[_ ->]]; [|contradiction].
+    exact (wf_cover _ _ _ W k im0 Hk Hsp Hd).
+  - exact (wf_prist _ _ _ W).
+Qed.
+
+(* an entry of another kind is marked deleted *)
+Lemma wf_space_imps_del code imps x k :
+  wf_space code imps x -> (forall im, nthN imps k = Some im -> i_sp im <> code) ->
+  wf_space code (updN k del_imp imps) x.
+Proof.
+  intros W Hk. constructor.
+  - exact (wf_ids _ _ _ W).
+  - exact (wf_cnt _ _ _ W).
+  - exact (wf_orig _ _ _ W).
+  - intros p it k0 Hp Hk0. pose proof (wf_link _ _ _ W p it k0 Hp Hk0) as L.
+    destruct (N.eq_dec k k0) as [->|Hne]; [exfalso; apply (Hk _ L); reflexivity|].
+    rewrite nthN_updN_other by exact Hne. exact L.
+  - exact (wf_inj _ _ _ W).
+  - intros k0 im0 H0 Hsp Hd. destruct (N.eq_dec k k0) as [->|Hne].
+    + rewrite nthN_updN_same in H0. destruct (nthN imps k0); [|discriminate]. cbn in H0. inversion H0; subst im0. discriminate.
+    + rewrite nthN_updN_other in H0 by exact Hne. exact (wf_cover _ _ _ W k0 im0 H0 Hsp Hd).
+  - exact (wf_prist _ _ _ W).
+Qed.
+
+(* push of a local item (AddLocal, ItAddGlobal) *)
+Lemma wf_space_add_local code imps x r nl fp :
+  wf_space code imps x -> (r = false -> s_recalc x = false) ->
+  wf_space code imps
+    (mkSpace (s_items x ++ [mkItem (lenN (s_items x)) None false fp]) r (s_num x) (s_added x) nl).
+Proof.
+  intros W Hr. constructor; cbn [s_items s_num s_added s_recalc].
+  - intros p it Hp. apply nth_error_snoc in Hp as [Hp|[-> ->]]; [exact (wf_ids _ _ _ W p it Hp)|reflexivity].
+  - exact (wf_cnt _ _ _ W).
+  - pose proof (wf_orig _ _ _ W). unfold origN in *. cbn [s_num s_added]. rewrite app_length. lia.
+  - intros p it k Hp Hk. apply nth_error_snoc in Hp as [Hp|[-> ->]]; [exact (wf_link _ _ _ W p it k Hp Hk)|discriminate].
+  - intros p q a b k Hp Hq Ha Hb.
+    apply nth_error_snoc in Hp as [Hp|[-> ->]]; [|discriminate].
+    apply nth_error_snoc in Hq as [Hq|[-> ->]]; [|discriminate].
+    exact (wf_inj _ _ _ W p q a b k Hp Hq Ha Hb).
+  - intros k im Hk Hsp Hd. destruct (wf_cover _ _ _ W k im Hk Hsp Hd) as [p [it [Hp Hi]]].
+    exists p, it. split; [apply nth_error_snoc_l; exact Hp|exact Hi].
+  - intros Hr'. destruct (wf_prist _ _ _ W (Hr Hr')) as [Ha Hall]. split; [exact Ha|].
+    intros p it Hp. apply nth_error_snoc in Hp as [Hp|[-> ->]]; [exact (Hall p it Hp)|].
+    split; [reflexivity|]. cbn. pose proof (wf_orig _ _ _ W) as Ho. unfold origN in Ho. rewrite Ha in Ho.
+    split; [discriminate|]. intros Hlt. exfalso. lia.
+Qed.
+
+(* Module::add_import followed by the push of the import item (AddImport) *)
+Lemma wf_space_add_import code imps x nl fp :
+  wf_space code imps x ->
+  wf_space code (imps ++ [mkImp code false fp])
+    (mkSpace (s_items x ++ [mkItem (lenN (s_items x)) (Some (lenN imps)) false fp]) true
+             (s_num x + 1) (s_added x + 1) nl).
+Proof.
+  intros W. constructor; cbn [s_items s_num s_added s_recalc].
+  - intros p it Hp. apply nth_error_snoc in Hp as [Hp|[-> ->]]; [exact (wf_ids _ _ _ W p it Hp)|reflexivity].
+  - pose proof (wf_cnt _ _ _ W). lia.
+  - pose proof (wf_orig _ _ _ W) as Ho. pose proof (wf_cnt _ _ _ W). unfold origN in *. cbn [s_num s_added].
+    rewrite app_length. replace (s_num x + 1 - (s_added x + 1))%N with (s_num x - s_added x)%N by lia. lia.
+  - intros p it k Hp Hk. apply nth_error_snoc in Hp as [Hp|[-> ->]].
+    + apply nthN_snoc_l. exact (wf_link _ _ _ W p it k Hp Hk).
+    + cbn in Hk. inversion Hk; subst k. cbn. apply nthN_snoc_r.
+  - intros p q a b k Hp Hq Ha Hb.
+    apply nth_error_snoc in Hp as [Hp|[-> ->]]; apply nth_error_snoc in Hq as [Hq|[-> ->]].
+    + exact (wf_inj _ _ _ W p q a b k Hp Hq Ha Hb).
+    + exfalso. cbn in Hb. inversion Hb; subst k. exact (nthN_lenN_none _ _ (wf_link _ _ _ W p a _ Hp Ha)).
+    + exfalso. cbn in Ha. inversion Ha; subst k. exact (nthN_lenN_none _ _ (wf_link _ _ _ W q b _ Hq Hb)).
+    + reflexivity.
+  - intros k im Hk Hsp Hd. apply nthN_snoc in Hk as [Hk|[-> ->]].
+    + destruct (wf_cover _ _ _ W k im Hk Hsp Hd) as [p [it [Hp Hi]]].
+      exists p, it. split; [apply nth_error_snoc_l; exact Hp|exact Hi].
+    + exists (length (s_items x)), (mkItem (lenN (s_items x)) (Some (lenN imps)) false fp).
+      split; [apply nth_error_snoc_r|reflexivity].
+  - discriminate.
+Qed.
+
+(* what [upd id (set_del true)] does to the item at a position *)
+Lemma nth_error_upd_del l id p a' :
+  nth_error (upd id (set_del true) l) p = Some a' ->
+  exists a, nth_error l p = Some a /\ it_imp a' = it_imp a /\ it_id a' = it_id a /\ it_fp a' = it_fp a /\
+            (p = id -> a' = set_del true a) /\ (p <> id -> a' = a).
+Proof.
+  intros H. destruct (Nat.eq_dec id p) as [->|Hne].
+  - rewrite nth_error_upd_same in H. destruct (nth_error l p) as [a|]; [|discriminate].
+    cbn in H. inversion H; subst a'. exists a. repeat split; auto. intros; congruence.
+  - rewrite nth_error_upd_other in H by exact Hne. exists a'. repeat split; auto. intros; congruence.
+Qed.
+Lemma nth_error_upd_del_fwd l id p a :
+  nth_error l p = Some a -> exists a', nth_error (upd id (set_del true) l) p = Some a' /\ it_imp a' = it_imp a.
+Proof.
+  intros H. destruct (Nat.eq_dec id p) as [->|Hne].
+  - exists (set_del true a). rewrite nth_error_upd_same, H. split; reflexivity.
+  - exists a. rewrite nth_error_upd_other by exact Hne. split; [exact H|reflexivity].
+Qed.
+
+(* delete: the flag of the item and, for an import item, of its entry *)
+Lemma wf_space_delete code imps x id it nl :
+  wf_space code imps x -> nth_error (s_items x) id = Some it ->
+  wf_space code (match it_imp it with Some k => updN k del_imp imps | None => imps end)
+    (mkSpace (upd id (set_del true) (s_items x)) true (s_num x) (s_added x) nl).
+Proof.
+  intros W Hid. constructor; cbn [s_items s_num s_added s_recalc].
+  - intros p a' Hp. destruct (nth_error_upd_del _ _ _ _ Hp) as [a [Ha [_ [E _]]]]. rewrite E. exact (wf_ids _ _ _ W p a Ha).
+  - exact (wf_cnt _ _ _ W).
+  - pose proof (wf_orig _ _ _ W). unfold origN in *. cbn [s_num s_added]. rewrite upd_length. lia.
+  - intros p a' k0 Hp Hk0.
+    destruct (nth_error_upd_del _ _ _ _ Hp) as [a [Ha [Ei [_ [Ef [Hsame Hother]]]]]].
+    rewrite Ei in Hk0. pose proof (wf_link _ _ _ W p a k0 Ha Hk0) as L. rewrite Ef.
+    destruct (Nat.eq_dec p id) as [->|Hne].
+    + rewrite (Hsame eq_refl). cbn [it_del set_del]. assert (a = it) by congruence. subst a.
+      rewrite Hk0. rewrite nthN_updN_same, L. reflexivity.
+    + rewrite (Hother Hne). destruct (it_imp it) as [k|] eqn:Ek; [|exact L].
+      rewrite nthN_updN_other; [exact L|]. intros ->. apply Hne. exact (wf_inj _ _ _ W p id a it k0 Ha Hid Hk0 Ek).
+  - intros p q a' b' k Hp Hq Ha Hb.
+    destruct (nth_error_upd_del _ _ _ _ Hp) as [a [Ha0 [Ea _]]].
+    destruct (nth_error_upd_del _ _ _ _ Hq) as [b [Hb0 [Eb _]]].
+    rewrite Ea in Ha. rewrite Eb in Hb. exact (wf_inj _ _ _ W p q a b k Ha0 Hb0 Ha Hb).
+  - intros k0 im H0 Hsp Hd.
+    assert (Hold : nthN imps k0 = Some im).
+    { destruct (it_imp it) as [k|]; [|exact H0]. destruct (N.eq_dec k k0) as [->|Hne].
+      - rewrite nthN_updN_same in H0. destruct (nthN imps k0); [|discriminate]. cbn in H0. inversion H0; subst im. discriminate.
+      - rewrite nthN_updN_other in H0 by exact Hne. exact H0. }
+    destruct (wf_cover _ _ _ W k0 im Hold Hsp Hd) as [p [a [Hp Hi]]].
+    destruct (nth_error_upd_del_fwd _ id _ _ Hp) as [a' [Hp' Ei]].
+    exists p, a'. split; [exact Hp'|congruence].
+  - discriminate.
+Qed.
+
+(* convert_local_fn_to_import, after its delete: the local item at [id] is replaced in place by an import item
+   that carries the freshly pushed entry *)
+Lemma wf_space_to_import code imps x (id : N) it fp nl :
+  wf_space code imps x -> nth_error (s_items x) (N.to_nat id) = Some it -> it_imp it = None ->
+  wf_space code (imps ++ [mkImp code false fp])
+    (mkSpace (updN id (fun _ => mkItem id (Some (lenN imps)) false fp) (s_items x)) true
+             (s_num x + 1) (s_added x + 1) nl).
+Proof.
+  intros W Hid Hloc. unfold updN. set (new := mkItem id (Some (lenN imps)) false fp).
+  assert (Hnew : nth_error (upd (N.to_nat id) (fun _ => new) (s_items x)) (N.to_nat id) = Some new)
+    by (rewrite nth_error_upd_same, Hid; reflexivity).
+  constructor; cbn [s_items s_num s_added s_recalc].
+  - intros p a Hp. destruct (Nat.eq_dec (N.to_nat id) p) as [<-|Hne].
+    + rewrite Hnew in Hp. inversion Hp; subst a. cbn. rewrite N2Nat.id. reflexivity.
+    + rewrite nth_error_upd_other in Hp by exact Hne. exact (wf_ids _ _ _ W p a Hp).
+  - pose proof (wf_cnt _ _ _ W). lia.
+  - pose proof (wf_orig _ _ _ W) as Ho. pose proof (wf_cnt _ _ _ W). unfold origN in *. cbn [s_num s_added].
+    rewrite upd_length. replace (s_num x + 1 - (s_added x + 1))%N with (s_num x - s_added x)%N by lia. lia.
+  - intros p a k Hp Hk. destruct (Nat.eq_dec (N.to_nat id) p) as [<-|Hne].
+    + rewrite Hnew in Hp. inversion Hp; subst a. cbn in Hk. inversion Hk; subst k. cbn. apply nthN_snoc_r.
+    + rewrite nth_error_upd_other in Hp by exact Hne. apply nthN_snoc_l. exact (wf_link _ _ _ W p a k Hp Hk).
+  - intros p q a b k Hp Hq Ha Hb.
+    destruct (Nat.eq_dec (N.to_nat id) p) as [<-|Hnp]; destruct (Nat.eq_dec (N.to_nat id) q) as [<-|Hnq]; [reflexivity| | |].
+    + exfalso. rewrite Hnew in Hp. inversion Hp; subst a. cbn in Ha. inversion Ha; subst k.
+      rewrite nth_error_upd_other in Hq by exact Hnq. exact (nthN_lenN_none _ _ (wf_link _ _ _ W q b _ Hq Hb)).
+    + exfalso. rewrite Hnew in Hq. inversion Hq; subst b. cbn in Hb. inversion Hb; subst k.
+      rewrite nth_error_upd_other in Hp by exact Hnp. exact (nthN_lenN_none _ _ (wf_link _ _ _ W p a _ Hp Ha)).
+    + rewrite nth_error_upd_other in Hp by exact Hnp. rewrite nth_error_upd_other in Hq by exact Hnq.
+      exact (wf_inj _ _ _ W p q a b k Hp Hq Ha Hb).
+  - intros k im Hk Hsp Hd. apply nthN_snoc in Hk as [Hk|[-> ->]].
+    + destruct (wf_cover _ _ _ W k im Hk Hsp Hd) as [p [a [Hp Hi]]].
+      exists p, a. split; [|exact Hi]. rewrite nth_error_upd_other; [exact Hp|].
+      intros <-. congruence.
+    + exists (N.to_nat id), new. split; [exact Hnew|reflexivity].
+  - discriminate.
+Qed.
+
+(* replace_import_in_module, after its delete: the (now deleted) import item at [id] is replaced in place by a
+   live local item; its entry stays deleted and is carried by no item any more *)
+Lemma wf_space_to_local code imps x (id : N) it fp nl :
+  wf_space code imps x -> nth_error (s_items x) (N.to_nat id) = Some it -> it_del it = true ->
+  wf_space code imps
+    (mkSpace (updN id (fun _ => mkItem id None false fp) (s_items x)) true (s_num x) (s_added x) nl).
+Proof.
+  intros W Hid Hdel. unfold updN. set (new := mkItem id None false fp).
+  assert (Hnew : nth_error (upd (N.to_nat id) (fun _ => new) (s_items x)) (N.to_nat id) = Some new)
+    by (rewrite nth_error_upd_same, Hid; reflexivity).
+  constructor; cbn [s_items s_num s_added s_recalc].
+  - intros p a Hp. destruct (Nat.eq_dec (N.to_nat id) p) as [<-|Hne].
+    + rewrite Hnew in Hp. inversion Hp; subst a. cbn. rewrite N2Nat.id. reflexivity.
+    + rewrite nth_error_upd_other in Hp by exact Hne. exact (wf_ids _ _ _ W p a Hp).
+  - exact (wf_cnt _ _ _ W).
+  - pose proof (wf_orig _ _ _ W). unfold origN in *. cbn [s_num s_added]. rewrite upd_length. lia.
+  - intros p a k Hp Hk. destruct (Nat.eq_dec (N.to_nat id) p) as [<-|Hne].
+    + rewrite Hnew in Hp. inversion Hp; subst a. discriminate.
+    + rewrite nth_error_upd_other in Hp by exact Hne. exact (wf_link _ _ _ W p a k Hp Hk).
+  - intros p q a b k Hp Hq Ha Hb.
+    destruct (Nat.eq_dec (N.to_nat id) p) as [<-|Hnp]; [rewrite Hnew in Hp; inversion Hp; subst a; discriminate|].
+    destruct (Nat.eq_dec (N.to_nat id) q) as [<-|Hnq]; [rewrite Hnew in Hq; inversion Hq; subst b; discriminate|].
+    rewrite nth_error_upd_other in Hp by exact Hnp. rewrite nth_error_upd_other in Hq by exact Hnq.
+    exact (wf_inj _ _ _ W p q a b k Hp Hq Ha Hb).
+  - intros k im Hk Hsp Hd.
+    destruct (wf_cover _ _ _ W k im Hk Hsp Hd) as [p [a [Hp Hi]]].
+    exists p, a. split; [|exact Hi]. rewrite nth_error_upd_other; [exact Hp|].
+    intros <-. assert (a = it) by congruence. subst a.
+    pose proof (wf_link _ _ _ W _ it k Hid Hi) as L. rewrite Hk in L. inversion L; subst im. cbn in Hd. congruence.
+  - discriminate.
+Qed.
+
+(* ------------------------------------------------------------------------------------------ *)
+(* preservation, whole state *)
+
+Definition with_sp (m : mst) (s : sp) (x : space) (imps : list imp) : mst :=
+  let m1 := set_sp m s x in mkM (m_f m1) (m_g m1) (m_m m1) imps.
+
+Lemma wf_with_sp m s x imps :
+  wf_space (sp_code s) imps x ->
+  (forall s', s' <> s -> wf_space (sp_code s') imps (get_sp m s')) ->
+  wf (with_sp m s x imps).
+Proof.
+  intros Hx Ho s'. destruct s, s'; try exact Hx;
+    match goal with |- wf_space (sp_code ?a) _ _ => apply (Ho a); discriminate end.
+Qed.
+
+Lemma set_sp_with m s x : set_sp m s x = with_sp m s x (m_imports m).
+Proof. destruct s; reflexivity. Qed.
+Lemma sp_code_inj s s' : sp_code s = sp_code s' -> s = s'.
+Proof. destruct s, s'; cbn; intros H; try reflexivity; discriminate. Qed.
+
+Lemma delete_in_ok m s id m' : delete_in m s id = Ok m' ->
+  exists it, nth_error (s_items (get_sp m s)) (N.to_nat id) = Some it /\
+    m' = with_sp m s (mkSpace (upd (N.to_nat id) (set_del true) (s_items (get_sp m s))) true
+                              (s_num (get_sp m s)) (s_added (get_sp m s)) (s_nlocal (get_sp m s)))
+                 (match it_imp it with Some k => updN k del_imp (m_imports m) | None => m_imports m end).
+Proof.
+  unfold delete_in. set (x := get_sp m s). intros H.
+  destruct (N.ltb_spec id (lenN (s_items x))) as [Hlt|Hge].
+  - rewrite nthN_updN_same in H. unfold nthN in H.
+    destruct (nth_error (s_items x) (N.to_nat id)) as [it|] eqn:E; [|discriminate].
+    exists it. split; [reflexivity|]. cbn [option_map] in H.
+    change (it_imp (set_del true it)) with (it_imp it) in H.
+    destruct (it_imp it) as [k|]; inversion H; subst m'; destruct s; reflexivity.
+  - exfalso. unfold nthN in H.
+    assert (E : nth_error (s_items x) (N.to_nat id) = None) by (apply nth_error_None; unfold lenN in Hge; lia).
+    rewrite E in H. discriminate.
+Qed.
+
+Lemma delete_in_wf m s id m' : wf m -> delete_in m s id = Ok m' -> wf m'.
+Proof.
+  intros W H. destruct (delete_in_ok _ _ _ _ H) as [it [Hit ->]].
+  apply wf_with_sp.
+  - apply wf_space_delete; [exact (W s)|exact Hit].
+  - intros s' Hne. destruct (it_imp it) as [k|] eqn:Ek; [|exact (W s')].
+    apply wf_space_imps_del; [exact (W s')|].
+    intros im Him E. pose proof (wf_link _ _ _ (W s) _ it k Hit Ek) as L. rewrite Him in L. inversion L; subst im.
+    cbn in E. apply Hne. symmetry. apply sp_code_inj. exact E.
+Qed.
+
+Lemma push_import_eq m s fp :
+  push_import m s fp =
+  (with_sp m s (mkSpace (s_items (get_sp m s)) (s_recalc (get_sp m s)) (s_num (get_sp m s) + 1)
+                        (s_added (get_sp m s) + 1) (s_nlocal (get_sp m s)))
+           (m_imports m ++ [mkImp (sp_code s) false fp]),
+   (if (0 <? s_nlocal (get_sp m s))%N then lenN (s_items (get_sp m s)) else s_num (get_sp m s)),
+   lenN (m_imports m)).
+Proof. unfold push_import. destruct s; reflexivity. Qed.
+
+Lemma get_with_same m s x imps : get_sp (with_sp m s x imps) s = x.
+Proof. destruct s; reflexivity. Qed.
+Lemma imports_with m s x imps : m_imports (with_sp m s x imps) = imps.
+Proof. destruct s; reflexivity. Qed.
+Lemma with_with m s x imps x' imps' : with_sp (with_sp m s x imps) s x' imps' = with_sp m s x' imps'.
+Proof. destruct s; reflexivity. Qed.
+Lemma get_with_other m s s' x imps : s' <> s -> get_sp (with_sp m s x imps) s' = get_sp m s'.
+Proof. destruct s, s'; intros H; try reflexivity; contradiction. Qed.
+
+Lemma wf_others_snoc m s fp :
+  wf m -> forall s', s' <> s -> wf_space (sp_code s') (m_imports m ++ [mkImp (sp_code s) false fp]) (get_sp m s').
+Proof.
+  intros W s' Hne. apply wf_space_imps_snoc; [exact (W s')|]. cbn. intros E. apply Hne. symmetry. apply sp_code_inj. exact E.
+Qed.
+
+Theorem step_wf m o m' r : wf m -> mstep m o = Ok (m', r) -> wf m'.
+Proof.
+  intros W H. destruct o as [s fp|s fp|s id|id fp|k fp|fp|s id|k|mem].
+  - (* AddLocal *)
+    destruct s; cbn [Reindex.step] in H.
+    + destruct (N.eqb _ _); inversion H; subst m'. rewrite set_sp_with. apply wf_with_sp.
+      * apply (wf_space_add_local _ _ (m_f m)); [exact (W SF)|discriminate].
+      * intros s' _. exact (W s').
+    + inversion H; subst m'. rewrite set_sp_with. apply wf_with_sp.
+      * apply (wf_space_add_local _ _ (m_g m)); [exact (W SG)|auto].
+      * intros s' _. exact (W s').
+    + inversion H; subst m'. rewrite set_sp_with. apply wf_with_sp.
+      * apply (wf_space_add_local _ _ (m_m m)); [exact (W SM)|discriminate].
+      * intros s' _. exact (W s').
+  - (* AddImport *)
+    assert (G : forall nl, wf (with_sp m s
+               (mkSpace (s_items (get_sp m s) ++ [mkItem (lenN (s_items (get_sp m s))) (Some (lenN (m_imports m))) false fp]) true
+                        (s_num (get_sp m s) + 1) (s_added (get_sp m s) + 1) nl)
+               (m_imports m ++ [mkImp (sp_code s) false fp]))).
+    { intros nl. apply wf_with_sp; [apply wf_space_add_import; exact (W s)|apply wf_others_snoc; exact W]. }
+    destruct s; cbn [Reindex.step] in H; rewrite push_import_eq in H.
+    + change (get_sp (with_sp m SF ?x ?i) SF) with x in H. cbv beta iota in H.
+      match type of H with (if ?c then _ else _) = _ => destruct c eqn:E end; [|discriminate].
+      inversion H; subst m'. apply N.eqb_eq in E. cbn [get_sp with_sp set_sp m_f m_g m_m m_imports s_items s_num s_added s_nlocal s_recalc] in *.
+      rewrite <- E. apply (G (s_nlocal (m_f m))).
+    + cbv beta iota in H. inversion H; subst m'. apply (G (s_nlocal (m_g m) + 1)%N).
+    + change (get_sp (with_sp m SM ?x ?i) SM) with x in H. cbv beta iota in H.
+      match type of H with (if ?c then _ else _) = _ => destruct c eqn:E end; [|discriminate].
+      inversion H; subst m'. apply N.eqb_eq in E. cbn [get_sp with_sp set_sp m_f m_g m_m m_imports s_items s_num s_added s_nlocal s_recalc] in *.
+      rewrite <- E. apply (G (s_nlocal (m_m m))).
+  - (* Delete *)
+    cbn [Reindex.step] in H. destruct (delete_in m s id) as [m1|] eqn:E; [|discriminate].
+    inversion H; subst m'. exact (delete_in_wf _ _ _ _ W E).
+  - (* LocalToImport *)
+    cbn [Reindex.step] in H. unfold nthN in H.
+    destruct (nth_error (s_items (m_f m)) (N.to_nat id)) as [it|] eqn:Eit; [|discriminate].
+    destruct (is_import it) eqn:Ei; [inversion H; subst m'; exact W|].
+    destruct (delete_in m SF id) as [m1|] eqn:E; [|discriminate].
+    pose proof (delete_in_wf _ _ _ _ W E) as W1.
+    destruct (delete_in_ok _ _ _ _ E) as [it0 [Hit0 Em1]]. cbn [get_sp] in Hit0.
+    assert (it0 = it) by congruence. subst it0.
+    assert (Hloc : it_imp it = None) by (unfold is_import, is_local in Ei; destruct (it_imp it); [discriminate|reflexivity]).
+    rewrite push_import_eq in H. cbv beta iota in H. inversion H; subst m'. clear H.
+    change (m_f (with_sp m1 SF ?x ?i)) with x. cbn [s_items s_recalc s_num s_added s_nlocal].
+    rewrite set_sp_with, with_with, imports_with.
+    apply wf_with_sp.
+    + apply (wf_space_to_import _ _ (get_sp m1 SF) id (set_del true it)); [exact (W1 SF)| |exact Hloc].
+      rewrite Em1, get_with_same. cbn [s_items]. rewrite nth_error_upd_same, Eit. reflexivity.
+    + apply wf_others_snoc. exact W1.
+  - (* ImportToLocal *)
+    cbn [Reindex.step] in H.
+    destruct (nthN (m_imports m) k) as [im|]; [|discriminate].
+    destruct (negb (i_sp im =? 0)%N); [discriminate|].
+    unfold nthN in H.
+    destruct (nth_error (s_items (m_f m)) (N.to_nat k)) as [it|] eqn:Eit; [|discriminate].
+    destruct (is_local it) eqn:Ei; [inversion H; subst m'; exact W|].
+    destruct (delete_in m SF k) as [m1|] eqn:E; [|discriminate].
+    pose proof (delete_in_wf _ _ _ _ W E) as W1.
+    destruct (delete_in_ok _ _ _ _ E) as [it0 [Hit0 Em1]]. cbn [get_sp] in Hit0.
+    assert (it0 = it) by congruence. subst it0.
+    inversion H; subst m'. clear H. rewrite set_sp_with. apply wf_with_sp.
+    + apply (wf_space_to_local _ _ (get_sp m1 SF) k (set_del true it)); [exact (W1 SF)| |reflexivity].
+      rewrite Em1, get_with_same. cbn [s_items]. rewrite nth_error_upd_same, Eit. reflexivity.
+    + intros s' _. exact (W1 s').
+  - (* ItAddGlobal *)
+    cbn [Reindex.step] in H. inversion H; subst m'. rewrite set_sp_with. apply wf_with_sp.
+    + apply (wf_space_add_local _ _ (m_g m)); [exact (W SG)|auto].
+    + intros s' _. exact (W s').
+  - cbn [Reindex.step] in H. inversion H; subst m'. exact W.
+  - cbn [Reindex.step] in H. inversion H; subst m'. exact W.
+  - cbn [Reindex.step] in H. inversion H; subst m'. exact W.
+Qed.
